@@ -426,6 +426,21 @@ json.dump(out, sys.stdout)
                             raise self.v('membership', 'Wordnet.ili(id) returned an ILI that '
                                          'no synset of the selection carries',
                                          {'cfg': ctx['cfg'], 'ili': i})
+        # lookups by identifier: an id that only lexicons outside the selection declare is
+        # unknown to this Wordnet; an id declared inside AND outside resolves inside
+        if not default:
+            for sp in self.m.installed:
+                if sp in S:
+                    continue
+                ix = self.m.idx[sp]
+                for kind, elems, fn in (
+                        ('word', [e['id'] for e in ix.local_entries()[:2]], w.word),
+                        ('sense', [s_['id'] for s_, _e in ix.local_senses()[:2]], w.sense),
+                        ('synset', [x['id'] for x in ix.local_synsets()[:2]], w.synset)):
+                    for i in elems:
+                        got = safe(lambda: fn(i))
+                        if got is not None:
+                            chk(got, '%s(%r)' % (kind, i), 'Wordnet.%s(id)' % kind)
         # form searches
         forms = []
         for x in w.words()[:3]:
